@@ -59,6 +59,8 @@ Fixpoint all_match (ts : list txn_site) (es : list exp_txn) : bool :=
   end.
 
 Definition cmd_matches (ci : cmd_info) (es : list exp_txn) : bool := all_match (txns_of ci "run") es.
+(* a command whose transaction sits in a helper function of its file *)
+Definition cmd_matches_in (fn : string) (ci : cmd_info) (es : list exp_txn) : bool := all_match (txns_of ci fn) es.
 
 (* ---- the model's options, command by command ---- *)
 Definition hard : bexpr := BFlag "hard".
@@ -87,3 +89,4 @@ Definition exp_edit     := [E "allow" BFalse BTrue BTrue BFalse].               
 Definition exp_rebase   := [E "disallow" BFalse BTrue BTrue BFalse;                   (* run_rebase: pop, *)
                             E "disallow" BFalse BTrue BTrue BFalse].                  (*   then reapply *)
 Definition exp_squash   := [E "allow" BFalse BTrue BTrue BFalse].                     (* run_squash *)
+Definition exp_pick     := [E "disallow" BFalse BTrue BTrue BFalse].                  (* run_pick (pick_picks) *)
